@@ -28,3 +28,33 @@ func VH_C05_hex_encode() {
 	vAssert(ok, "hex-is-lowercase-hex-of-wkb")
 	vReach("end")
 }
+
+func vSameBitsPts(a, b []geom.Point) bool {
+	if len(a) != len(b) {
+		return false
+	}
+	r := true
+	for i := range a {
+		r = vAnd(r, vSameBits(a[i].X, b[i].X), vSameBits(a[i].Y, b[i].Y))
+	}
+	return r
+}
+
+// hex.Decode(hex.Encode(g)) == g bit for bit.
+func VH_C05_hex_roundtrip() {
+	g := geom.LineString{{X: vFloat64(), Y: vFloat64()}}
+	var order binary.ByteOrder = wkb.XDR
+	if vChoose(2) == 1 {
+		order = wkb.NDR
+	}
+	s, err := Encode(g, order)
+	vAssert(err == nil, "hex-encode-succeeds")
+	g2, err := Decode(s)
+	if err != nil {
+		vAssert(false, "hex-decode-fails: "+err.Error())
+	}
+	l2, ok := g2.(geom.LineString)
+	vAssert(ok, "hex-decode-type")
+	vAssert(vSameBitsPts(g, l2), "hex-roundtrip-identity")
+	vReach("end")
+}
